@@ -189,7 +189,7 @@ func (s *Subject) Exec(step int, op Op) (res Res) {
 		}
 		off := 0
 		chunks := op.Chunks
-		if len(chunks) == 0 {
+		if chunks == nil { // unspecified: one chunk; an empty non-nil list means "open and close without a Write"
 			chunks = []int{len(op.Data)}
 		}
 		for _, c := range chunks {
